@@ -160,30 +160,52 @@ def index_maps_unbounded(env):
     block sizes) and discharged by z3: blocks start at the prefix sums, are pairwise disjoint, lie inside and cover
     [0, total) -- the mux/demux index maps are bijections onto a contiguous range"""
     from .. import astvc
+    import itertools
     import openaerostruct.mphys.utils as U
+
+    def concrete(fn, kind):
+        ok = True
+        for sizes in itertools.product([(2, 2), (3, 2), (2, 5)], repeat=3):
+            for n in (1, 2, 3):
+                surfs = [dict(name="s%d" % k, mesh=np.zeros((a, b, 3))) for k, (a, b) in enumerate(sizes[:n])]
+                r = fn(surfs)
+                if kind == "count":
+                    ok &= r == sum(a * b for a, b in sizes[:n])
+                else:
+                    allidx = np.concatenate([r["s%d" % k].reshape(-1) for k in range(n)])
+                    ok &= sorted(allidx.tolist()) == list(range(len(allidx)))
+                    ok &= all(r["s%d" % k].shape[:2] == sizes[k] for k in range(n))
+                    ok &= all(np.all(np.diff(r["s%d" % k].reshape(-1)) == 1) for k in range(n))
+        return bool(ok)
+
     for fn, kind in ((U.get_number_of_nodes, "count"), (U.get_src_indices, "blocks"), (U.get_node_indices, "blocks")):
         env.functions.add("%s.%s" % (fn.__module__, fn.__name__))
+        try:
+            vcs = list(astvc.verify_index_function(fn, kind))
+        except S.OutsideFragment as e:
+            # the function was rewritten into a shape the VC generator does not cover (it supports the accumulate-in-a-loop
+            # form): no unbounded verdict; the same statements on a concrete family of surface lists stand in, labelled bounded
+            vcs = None
+            env.note("c19.index_maps_unbounded: %s is outside the VC generator's subset (%s); bounded stand-in used" % (fn.__name__, e))
+            env.assumptions.add("index helpers of mphys/utils.py: bounded check only (1-3 surfaces of 3 sizes); the AST VC generator does not cover their current form")
+        if vcs is None:
+            if env.sym:
+                env.holds("C19,C11", "%s [bounded stand-in: 1-3 surfaces of sizes 2x2, 3x2, 2x5]: blocks are contiguous, disjoint and cover [0, total)" % fn.__name__,
+                          concrete(fn, kind))
+            else:
+                env.numeric["%s [bounded stand-in: 1-3 surfaces of sizes 2x2, 3x2, 2x5]: blocks are contiguous, disjoint and cover [0, total)" % fn.__name__] = (
+                    np.array([0.0 if concrete(fn, kind) else 1.0]), np.array([1.0]), np.array([0.0]), np.array([0.0]))
+            continue
         if env.sym:
-            for name, verdict, model in astvc.verify_index_function(fn, kind):
+            for name, verdict, model in vcs:
                 o = env.holds("C19,C11", "%s (unbounded, AST VC, z3): %s" % (fn.__name__, name), verdict == "proved", "z3: %s %s" % (verdict, model))
                 if verdict == "unknown":
                     o.refuted = []
                     o.undecided.append(dict(entry=None, reason="z3 returned unknown"))
         else:
             # native counterpart: the same statements checked on a concrete family of surface lists
-            import itertools
-            ok = True
-            for sizes in itertools.product([(2, 2), (3, 2), (2, 5)], repeat=3):
-                for n in (1, 2, 3):
-                    surfs = [dict(name="s%d" % k, mesh=np.zeros((a, b, 3))) for k, (a, b) in enumerate(sizes[:n])]
-                    r = fn(surfs)
-                    if kind == "count":
-                        ok &= r == sum(a * b for a, b in sizes[:n])
-                    else:
-                        allidx = np.concatenate([r["s%d" % k].reshape(-1) for k in range(n)])
-                        ok &= sorted(allidx.tolist()) == list(range(len(allidx)))
-            bad = 0.0 if ok else 1.0
-            for name, verdict, model in astvc.verify_index_function(fn, kind):
+            bad = 0.0 if concrete(fn, kind) else 1.0
+            for name, verdict, model in vcs:
                 env.numeric["%s (unbounded, AST VC, z3): %s" % (fn.__name__, name)] = (np.array([bad]), np.array([1.0]), np.array([0.0]), np.array([0.0]))
 
 
